@@ -16,3 +16,21 @@ Theorem C20_one_variable_per_parameter :
   forall es, map (fun uv => length (snd uv)) (sym_vars es) = map (fun e => length (ie_keys e)) es.
 Proof. exact sym_vars_lengths. Qed.
 Print Assumptions C20_one_variable_per_parameter.
+
+(* The clause "exactly one variable per parameter" needs the names <key>_<label> of different (element, parameter) pairs to differ.
+   That is FALSE of the naming scheme (and of the implementation, recorded as known finding C20-variable-name-collision): keys and
+   labels may both contain underscores.  Witness "Tlmbq{:B}Q{:B_B}": Y_B of the element labelled B and Y of the element labelled
+   B_B are both called Y_B_B, although the element objects and their (non-empty) labels are distinct. *)
+Definition c20_witness : list ielt :=
+  [mkIE 0 [84;108;109;98;113]%N [66]%N [[89]%N; [89;95;66]%N] []; mkIE 1 [81]%N [66;95;66]%N [[89]%N] []].
+Theorem C20_variable_names_distinct_refuted :
+  exists es, NoDup (map ie_uid es) /\ NoDup (map ie_label es) /\ (forall e, In e es -> ie_label e <> []) /\
+             ~ NoDup (concat (map snd (sym_vars es))).
+Proof.
+  exists c20_witness. repeat split.
+  - repeat constructor; simpl; intuition discriminate.
+  - repeat constructor; simpl; intuition discriminate.
+  - intros e [<- | [<- | []]]; discriminate.
+  - vm_compute. intro H. inversion H as [|x l H1 H2]; subst. inversion H2 as [|y l2 H3 H4]; subst. apply H3. left. reflexivity.
+Qed.
+Print Assumptions C20_variable_names_distinct_refuted.
